@@ -45,7 +45,9 @@ MODES_LOCAL = ["lineint:KeyboardInterrupt", "lineint:SystemExit", "err:EIO", "er
                "intafter:KeyboardInterrupt", "double:remove", "double:unflock", "double:marker"]
 MODES_S3 = ["lineint:KeyboardInterrupt", "err:InternalError*7", "err:InternalError*2", "err:AccessDenied", "err:EndpointConnectionError*7",
             "errafter:InternalError", "errafter:EndpointConnectionError", "errafter:PreconditionFailed", "int:KeyboardInterrupt",
-            "intafter:KeyboardInterrupt", "double:delete", "double:lockrelease"]
+            "intafter:KeyboardInterrupt", "double:delete", "double:lockrelease",
+            # the request LANDED, its response was lost, and every re-send is throttled until the retry budget is spent
+            "errafter:SlowDown*", "errafter:ServiceUnavailable*"]
 
 
 def gen(rng: random.Random, tier: str, idx: int) -> dict:
@@ -90,6 +92,10 @@ def _faults_for(mode: str, k: int, backend: str) -> List[dict]:
         exc, _, b = arg.partition("*")
         return [{"kind": "error", "actor": "ut", "step": k, "exc": exc, "burst": int(b or 1)}]
     if kind == "errafter":
+        if arg.endswith("*"):
+            return [{"kind": "error_after", "actor": "ut", "step": k, "exc": arg[:-1]},
+                    {"kind": "error", "actor": "ut", "op": "put", "min_step": k + 1, "exc": arg[:-1], "burst": 7},
+                    {"kind": "error", "actor": "ut", "op": "delete", "min_step": k + 1, "exc": arg[:-1], "burst": 7}]
         return [{"kind": "error_after", "actor": "ut", "step": k, "exc": arg}]
     if kind == "diskfull":
         return [{"kind": "value", "actor": "ut", "step": k}]
